@@ -47,7 +47,8 @@ ASSUMPTIONS = ["load samples are integers (tolerance comparisons exact); sequenc
                "multi-point, both HCM passes on any integer samples with load step labels in any order (descending, unordered), "
                "compared with every point processed alone"]
 OUTSIDE = ("sequences longer than the bound; laws that are not functions of the load (path dependent); multi-point histories "
-           "fed in several calls that re-use load step labels (see DESIGN.md section 8, observations)")
+           "fed in several calls that re-use load step labels, other than one block handed over twice with the second call "
+           "flushed (see DESIGN.md section 8, observations)")
 RULE = ("one evaluation = one explored path (order type of the integer loads and of the law's stress/strain values); "
         "distinct = distinct (case, flags/run pattern of hystereses); non-trivial = at least one recorded hysteresis")
 LABELS = ["rows.loads", "rows.stress_strain", "rows.derived", "rows.flags", "rows.LF", "strain_values", "multipoint_equals_single",
@@ -94,6 +95,8 @@ def cases(tier):
         out.append({"kind": "multi_chunked", "hcm": True, "n": 3, "steps": steps, "factors": [0.5], "_weight": 9 ** 3, "_split": 5})
     if not q:
         out.append({"kind": "multi_chunked", "hcm": True, "n": 4, "steps": [3, 0, 2, 1], "factors": [0.5], "_weight": 9 ** 4, "_split": 7})
+    # the same block (same labels) handed over twice, the second time flushed
+    out.append({"kind": "multi_chunked", "twice": True, "n": 3, "factors": [0.5], "_weight": 9 ** 3, "_split": 5})
     # several points at once with load step labels that do not ascend
     out.append({"kind": "multi", "n": 2, "factors": [0.5], "steps": [7, 3], "_weight": 9 ** 2 * 3, "_split": 4})
     if not q:
